@@ -4,6 +4,7 @@ Monitor: table monitor (harness-owned 12-row table) + escape monitor on every tr
 Workload: exhaustive 12 months x all spellings x 3 middlewares x 9 ordered pairs x 2 modes;
 non-month values; hostile values for the no-raise claim.
 """
+import sys
 import itertools
 
 from ..core import Violation, rng_for, srepr, tier_pick
@@ -53,7 +54,7 @@ def enc(v):
     if type(v) is str:
         return {"t": "str", "v": v}
     if isinstance(v, float):
-        return {"t": "float", "v": repr(v)}
+        return {"t": "float", "v": vrepr(v)}
     if isinstance(v, list):
         return {"t": "list", "v": [enc(x) for x in v]}
     if isinstance(v, IntSub):
@@ -61,6 +62,13 @@ def enc(v):
     if isinstance(v, StrSub):
         return {"t": "strsub", "v": str(v)}
     raise TypeError(v)
+
+
+def vrepr(v):
+    try:
+        return repr(v)
+    except ValueError:          # an int with more digits than python prints
+        return "<int with more than %d digits>" % sys.get_int_max_str_digits()
 
 
 def dec(d):
@@ -83,6 +91,8 @@ def dec(d):
         return StrSub(d["v"])
     if t == "bigdigits":
         return d["c"] * d["n"]
+    if t == "pow10":
+        return (-1 if d.get("neg") else 1) * 10 ** d["e"]
     raise TypeError(d)
 
 
@@ -134,6 +144,11 @@ def cases(tier, seed, shard, nshards):
     for v in NONMONTH:
         if idx % nshards == shard:
             yield {"k": "non", "v": enc(v)}
+        idx += 1
+    # out-of-range ints with more digits than python is willing to print (the value itself is an ordinary int)
+    for e, neg in ((4299, False), (4300, False), (4300, True), (6000, False)):
+        if idx % nshards == shard:
+            yield {"k": "non", "v": {"t": "pow10", "e": e, "neg": neg}}
         idx += 1
     for v in lookalikes():
         if v.lower() in ABBR or v.lower() in [f.lower() for f in FULL]:
@@ -288,7 +303,7 @@ def check(case, ctx):
             tag = "+".join(names)
             if st == "raise":
                 out.append(Violation("middleware-raised", f"C15:raise:{names[-1]}:{cls}:{res.split(':')[0]}",
-                                     dict(stack=tag, inplace=inplace, context=context, value=repr(v)[:80], error=res)))
+                                     dict(stack=tag, inplace=inplace, context=context, value=vrepr(v)[:80], error=res)))
                 continue
             if st == "lost":
                 out.append(Violation("entry-lost", f"C15:lost:{tag}:{cls}", res))
@@ -300,19 +315,19 @@ def check(case, ctx):
                     single[(names[0], inplace, context)] = res
                     if not same(res, expected(names[0], m)):
                         out.append(Violation("wrong-month-value", f"C15:table:{names[0]}:{cls}",
-                                             dict(mw=tag, value=repr(v), got=srepr(res), want=repr(expected(names[0], m)))))
+                                             dict(mw=tag, value=vrepr(v), got=srepr(res), want=repr(expected(names[0], m)))))
                 else:
                     ctx.mon("compose")
                     # B(A(s)) must equal B(s) (observed above) - and hence the table value
                     alone = single.get((names[1], inplace, context))
                     if not same(res, alone) or not same(res, expected(names[1], m)):
                         out.append(Violation("composition-differs", f"C15:compose:{tag}:{cls}",
-                                             dict(stack=tag, value=repr(v), got=srepr(res), alone=srepr(alone))))
+                                             dict(stack=tag, value=vrepr(v), got=srepr(res), alone=srepr(alone))))
             elif k == "non":
                 ctx.mon("nonmonth_unchanged")
                 if not same(res, v):
                     out.append(Violation("non-month-changed", f"C15:nonmonth:{names[-1]}:{cls}",
-                                         dict(stack=tag, inplace=inplace, value=repr(v), got=srepr(res, 120),
+                                         dict(stack=tag, inplace=inplace, value=vrepr(v), got=srepr(res, 120),
                                               got_type=type(res).__name__)))
     if k in ("month", "non"):
         ctx.nontriv(case)
